@@ -19,6 +19,7 @@ import (
 	"runtime/debug"
 	"strconv"
 	"strings"
+	"syscall"
 	"time"
 
 	"go.uber.org/thriftrw/protocol/binary"
@@ -352,7 +353,8 @@ func (s *session) exec(line string) (string, error) {
 			return cr, nil
 		}
 		if toks[0] == "memdecode" {
-			// TotalAlloc delta and wall time of one Decode call (time: best of two when slow)
+			// TotalAlloc delta and time of one Decode call (the smaller of wall time and the CPU time of
+			// the process; best of two when slow)
 			var res string
 			var alloc uint64
 			best := time.Duration(1 << 62)
@@ -365,10 +367,16 @@ func (s *session) exec(line string) (string, error) {
 				var before, after runtime.MemStats
 				runtime.GC()
 				runtime.ReadMemStats(&before)
+				cpu0, cpuOK := processCPU()
 				start := time.Now()
 				sr := binary.Default.Reader(rd)
 				out := p.MethodByName("Decode").Call([]reflect.Value{reflect.ValueOf(sr)})
 				el := time.Since(start)
+				// work is what the process burned, not what the clock says: on a loaded machine a
+				// decode of microseconds can wait its turn for longer than the bound
+				if cpu1, ok := processCPU(); ok && cpuOK && cpu1-cpu0 < el {
+					el = cpu1 - cpu0
+				}
 				runtime.ReadMemStats(&after)
 				sr.Close()
 				res = "ok"
@@ -745,4 +753,13 @@ type pipeLike struct{ r io.Reader }
 func (p pipeLike) Read(b []byte) (int, error) { return p.r.Read(b) }
 func (p pipeLike) Seek(int64, int) (int64, error) {
 	return 0, errors.New("seek: illegal seek")
+}
+
+// processCPU is the CPU time (user + system) this process has used so far.
+func processCPU() (time.Duration, bool) {
+	var ru syscall.Rusage
+	if err := syscall.Getrusage(syscall.RUSAGE_SELF, &ru); err != nil {
+		return 0, false
+	}
+	return time.Duration(ru.Utime.Nano() + ru.Stime.Nano()), true
 }
